@@ -11,6 +11,7 @@
 
 using namespace vf;
 
+static int g_maxM = 1000000;
 static int g_maxN = 12;
 static const char *TBB6[] = {"mcb_sva_signed_tbb", "mcb_sva_fvs_trees_tbb", "mcb_sva_iso_trees_tbb",
                              "approx_mcb_sva_signed_tbb", "approx_mcb_sva_fvs_trees_tbb", "approx_mcb_sva_iso_trees_tbb"};
@@ -67,6 +68,7 @@ static Case gen_c03() {
     c.wtype = coin(30) ? "int" : "double";
     GenOpts o;
     o.maxN = g_maxN;
+    o.maxM = g_maxM;
     c.g = gen_graph_raw(o, c.wtype == "int" ? WDom::ExactInt : WDom::Exact);
     c.k = pick(1, 4);
     if (c.entry.compare(0, 6, "approx") != 0) c.k = 1;
@@ -119,6 +121,7 @@ static Verdict check_c03(const Case &c) {
 
 int main(int argc, char **argv) {
     if (getenv("VERIF_MAXN")) g_maxN = atoi(getenv("VERIF_MAXN"));
+    if (getenv("VERIF_MAXM")) g_maxM = atoi(getenv("VERIF_MAXM"));
     std::map<std::string, Prop> props;
     props["C03"] = Prop{gen_c03, check_c03};
     return run_main(argc, argv, props);
